@@ -11,6 +11,7 @@ open Neutrino.Disp
 #print axioms C12_subs_recorded
 #print axioms C12_rank_scores
 #print axioms C12_score_moves
+#print axioms C12_hard_timeout_honoured
 open Neutrino.Wrk
 #print axioms C12_worker_source_facts
 #print axioms C12_worker_reports
